@@ -110,12 +110,17 @@ def collect_information(exprs):  # noqa: C901
                 continue
             sort = cmd[1]
             for constr in cmd[2]:
+                if constr.is_leaf() or len(constr) == 0:
+                    logging.trace(f'Ignored constructor: "{constr}"')
+                    continue
                 __datatypes_constructors[constr[0]] = sort
                 if len(constr) == 1:
                     __datatypes_constants.setdefault(sort, [])
                     __datatypes_constants[sort].append(constr[0])
                 else:
                     for id, sel in enumerate(constr[1:]):
+                        if sel.is_leaf() or len(sel) == 0:
+                            continue
                         __datatypes_selectors[sel[0]] = (constr[0], id)
 
         if name == 'declare-datatypes':
@@ -127,7 +132,7 @@ def collect_information(exprs):  # noqa: C901
                 logging.trace(f'Ignored command: "{cmd}" children are leafs')
                 continue
             # we implicitly assume nullary sorts here
-            if any(map(lambda n: n.is_leaf(), cmd[1])):
+            if any(map(lambda n: n.is_leaf() or len(n) == 0, cmd[1])):
                 logging.trace(
                     f'Ignore declare-datatypes because sort declarations can not be leaf nodes: {cmd[1]}'
                 )
@@ -138,13 +143,21 @@ def collect_information(exprs):  # noqa: C901
                     logging.trace(
                         f'Ignore "{sorts[id]}" as it lacks a constructor')
                     continue
+                if cmd[2][id].is_leaf():
+                    logging.trace(f'Ignore "{sorts[id]}": "{cmd[2][id]}" is a leaf')
+                    continue
                 for constr in cmd[2][id]:
+                    if constr.is_leaf() or len(constr) == 0:
+                        logging.trace(f'Ignored constructor: "{constr}"')
+                        continue
                     __datatypes_constructors[constr[0]] = sorts[id]
                     if len(constr) == 1:
                         __datatypes_constants.setdefault(sorts[id], [])
                         __datatypes_constants[sorts[id]].append(constr[0])
                     else:
                         for i, sel in enumerate(constr[1:]):
+                            if sel.is_leaf() or len(sel) == 0:
+                                continue
                             __datatypes_selectors[sel[0]] = (constr[0], i)
 
     # Collect additional term level information.
@@ -155,18 +168,20 @@ def collect_information(exprs):  # noqa: C901
                 if isinstance(num.data, str) and num.data.isdigit():
                     __indices.add(num.id)
         # Determine sort of symbols introduced by let.
-        if is_operator_app(node, 'let'):
+        if is_operator_app(node, 'let') and len(node) > 1 \
+           and not node[1].is_leaf():
             for var in node[1]:
-                if len(var) != 2:
+                if var.is_leaf() or len(var) != 2:
                     continue
                 sym, term = var
                 if sym.is_leaf():
                     __sort_lookup[sym.data] = get_sort(term)
                     __definition_node_ids.add(sym.id)
         # Determine sort of symbols introduced by quantifiers
-        if is_operator_app(node, 'exists') or is_operator_app(node, 'forall'):
+        if (is_operator_app(node, 'exists') or is_operator_app(
+                node, 'forall')) and len(node) > 1 and not node[1].is_leaf():
             for var in node[1]:
-                if len(var) != 2:
+                if var.is_leaf() or len(var) != 2:
                     continue
                 sym, term = var
                 if sym.is_leaf():
